@@ -66,13 +66,14 @@ public:
 
   double randC() const
   {
-    double x = RandomTools::randGamma(getParameterValue("alpha"),
+    // the domain is that of the shifted variable
+    double x = offset_ + RandomTools::randGamma(getParameterValue("alpha"),
           getParameterValue("beta"));
     while (!intMinMax_->isCorrect(x))
-      x = RandomTools::randGamma(getParameterValue("alpha"),
+      x = offset_ + RandomTools::randGamma(getParameterValue("alpha"),
             getParameterValue("beta"));
 
-    return x + offset_;
+    return x;
   }
 
   double qProb(double x) const;
